@@ -154,12 +154,40 @@ def run(ctx):
     loads = [s for s in walk_no_nested(sfn.node) if isinstance(s, ast.Assign)
              and norm(s.targets[0]) == "data" and ".section[" in
              norm(s.value)]
+    load_values = [s.value for s in loads]
     if not loads:
+        # the read may sit in a helper:  data = _read_rows(hdus, ..., lo, hi)
+        import copy as _copy
+        for s in walk_no_nested(sfn.node):
+            if isinstance(s, ast.Assign) and norm(s.targets[0]) == "data" \
+                    and isinstance(s.value, ast.Call) and \
+                    isinstance(s.value.func, ast.Name):
+                q = prog.resolve_name(prog.modules[sfn.module],
+                                      s.value.func.id)
+                h = prog.functions.get(q)
+                if h is None or s.value.keywords or \
+                        len(s.value.args) > len(h.params):
+                    continue
+                bind = dict(zip(h.params, s.value.args))
+
+                class _Sub(ast.NodeTransformer):
+                    def visit_Name(self, nd):
+                        if nd.id in bind and isinstance(nd.ctx, ast.Load):
+                            return _copy.deepcopy(bind[nd.id])
+                        return nd
+                for r in walk_no_nested(h.node):
+                    if isinstance(r, ast.Return) and r.value is not None \
+                            and ".section[" in norm(r.value):
+                        load_values.append(ast.fix_missing_locations(
+                            _Sub().visit(_copy.deepcopy(r.value))))
+                if load_values:
+                    loads.append(s)
+    if not load_values:
         raise AnalysisError("C06: block load `data = ....section[...]` not "
                             "found")
     ranges = set()
-    for s in loads:
-        for x in ast.walk(s.value):
+    for s_val in load_values:
+        for x in ast.walk(s_val):
             if isinstance(x, ast.Subscript) and norm(x.value).endswith(
                     ".section"):
                 sl = x.slice.elts if isinstance(x.slice, ast.Tuple) \
@@ -245,6 +273,18 @@ def run(ctx):
             # vals[i, j] = sigmaclip(...)[k]
             stat.append((n, s, [s.value.slice.value % 2]))
             calls_of[n] = s.value.value
+        elif isinstance(s.value, ast.Call) and \
+                norm(s.value.func) == clip.name and \
+                isinstance(s.targets[0], ast.Name):
+            # stats = sigmaclip(...);  ... = stats[k]
+            nm = s.targets[0].id
+            ks = sorted({x.slice.value % 2 for x in ast.walk(sfn.node)
+                         if isinstance(x, ast.Subscript) and
+                         isinstance(x.value, ast.Name) and x.value.id == nm
+                         and isinstance(x.slice, ast.Constant) and
+                         isinstance(x.slice.value, int)})
+            stat.append((n, s, ks))
+            calls_of[n] = s.value
     if len(stat) != 2:
         raise AnalysisError("C06-R1: expected two sigmaclip call sites")
     # order of execution: the one that can run before the subtraction first
@@ -429,8 +469,21 @@ def run(ctx):
     ctx.rule("C06-R4", "mask: NaN at ~isfinite(own rows of the data) in "
              "both maps, after the last interpolated write, only under "
              "domask")
+    # the mask is the index of the NaN stores into the shared maps
+    MASK = None
+    for s_ in walk_no_nested(sfn.node):
+        if isinstance(s_, ast.Assign) and \
+                norm(s_.value) in ("np.nan", "numpy.nan") and \
+                isinstance(s_.targets[0], ast.Subscript) and \
+                isinstance(s_.targets[0].slice, ast.Name):
+            b_ = s_.targets[0].value
+            while isinstance(b_, ast.Subscript):
+                b_ = b_.value
+            if norm(b_) in arrays:
+                MASK = s_.targets[0].slice.id
     mdef = [(n, s) for n, s in g.stmt.items() if g.kind[n] == "stmt" and
-            isinstance(s, ast.Assign) and norm(s.targets[0]) == "mask"]
+            isinstance(s, ast.Assign) and MASK is not None and
+            norm(s.targets[0]) == MASK]
     if len(mdef) != 1:
         raise AnalysisError("C06-R4: mask definition not found")
     mn, ms = mdef[0]
@@ -476,7 +529,7 @@ def run(ctx):
             wn, ws = writes[a][0]
             t = ns.targets[0]
             ok = g.dominates(wn, nn) and g.dominates(mn, nn) and \
-                norm(t.slice) == "mask" and \
+                norm(t.slice) == MASK and \
                 norm(t.value).replace(" ", "") == "%s[%s:%s,:]" % (
                     a, own[0], own[1])
             par = pm.get(ns)
@@ -547,14 +600,21 @@ def run(ctx):
     grid = [s for s in walk_no_nested(sfn.node) if isinstance(s, ast.Assign)
             and isinstance(s.value, ast.Subscript) and
             norm(s.value.value) in ("np.mgrid", "numpy.mgrid")]
-    okg = len(grid) == 1 and norm(grid[0].value.slice).replace(" ", "") in (
-        "(slice(%s-%s,%s-%s,None),slice(0,shape[1],None))" % (
-            own[0], lo, own[1], lo),) or (
-        len(grid) == 1 and isinstance(grid[0].value.slice, ast.Tuple) and
-        [(norm(e.lower).replace(" ", ""), norm(e.upper).replace(" ", ""))
-         for e in grid[0].value.slice.elts] ==
-        [("%s-%s" % (own[0], lo), "%s-%s" % (own[1], lo)),
-         ("0", "shape[1]")])
+    okg = False
+    if len(grid) == 1 and isinstance(grid[0].value.slice, ast.Tuple) and \
+            len(grid[0].value.slice.elts) == 2 and all(
+                isinstance(e, ast.Slice) for e in grid[0].value.slice.elts):
+        rs, cs = grid[0].value.slice.elts
+        ga = _lin(prog, mod, rs.lower, own, lo, hi) if rs.lower is not None \
+            else sp.Integer(0)
+        gb = _lin(prog, mod, rs.upper, own, lo, hi)
+        okg = ga is not None and gb is not None and \
+            sp.expand(ga - (Y0 - L)) == 0 and \
+            sp.expand(gb - (Y1 - L)) == 0 and \
+            (cs.lower is None or norm(cs.lower) == "0") and \
+            cs.upper is not None and \
+            norm(cs.upper).replace(" ", "") == "shape[1]" and \
+            rs.step is None and cs.step is None
     ctx.check("C06-R5", sfn, "evaluation grid", okg,
               "the maps must be evaluated on the stripe's own rows and all "
               "columns", node=grid[0] if grid else sfn.node)
